@@ -7,6 +7,7 @@ import (
 	"os"
 	"sort"
 	"strings"
+	"verifharness/internal/pool"
 
 	"verifharness/internal/proto"
 )
@@ -521,4 +522,92 @@ func progText(r *scRender) string {
 		sb.WriteString("-- " + f + "\n" + r.Text[i])
 	}
 	return sb.String()
+}
+
+// ---- scenarios shared by C06, C11 and C12: a global used in more files than the reference search has workers, and a
+// file that is created after start-up ----
+
+// wideGlobal runs the scenario and hands the answers to judge: refs1/refs2 = find-references asked at the declaration
+// and at a use (after a further user file was created and reported), ren = the rename edit asked at the declaration,
+// defs = go-to-definition asked at every use. want = all occurrences "file:line:col" (sorted).
+func wideGlobal(c *Ctx, p *pool.Pool, prop string, judge func(want []string, refs1, refs2, ren []string, defs map[string][]string, raw json.RawMessage)) {
+	const n = 26
+	files := map[string]string{"def.lua": "gwide = 1\nprint(gwide)\n"}
+	want := []string{"def.lua:0:0", "def.lua:1:6"}
+	for i := 0; i < n; i++ {
+		fn := fmt.Sprintf("user%02d.lua", i)
+		files[fn] = fmt.Sprintf("local u%d = gwide\nprint(u%d, gwide)\n", i, i)
+		want = append(want, fmt.Sprintf("%s:0:%d", fn, len(fmt.Sprintf("local u%d = ", i))), fmt.Sprintf("%s:1:%d", fn, len(fmt.Sprintf("print(u%d, ", i))))
+	}
+	late := "print(gwide)\nprint(gwide)\n"
+	want = append(want, "late.lua:0:6", "late.lua:1:6")
+	sort.Strings(want)
+	pc := &proto.Case{ID: 1, Files: files, Init: json.RawMessage(allOnLocal)}
+	pc.Steps = append(pc.Steps, openStep("def.lua", files["def.lua"]),
+		proto.Step{M: "fs.write", Path: "late.lua", Text: late},
+		proto.Step{M: "workspace/didChangeWatchedFiles", N: true, P: json.RawMessage(`{"changes":[{"uri":"file://$ROOT/notes.txt","type":2},{"uri":"file://$ROOT/late.lua","type":1}]}`)},
+		proto.Step{M: "textDocument/references", P: refParams("def.lua", 0, 1)},
+		proto.Step{M: "textDocument/references", P: refParams("def.lua", 1, 7)},
+		proto.Step{M: "textDocument/rename", P: json.RawMessage(`{"textDocument":{"uri":"file://$ROOT/def.lua"},"position":{"line":0,"character":1},"newName":"zz_wide"}`)})
+	base := len(pc.Steps)
+	useFiles := []string{"late.lua"}
+	for i := 0; i < n; i++ {
+		useFiles = append(useFiles, fmt.Sprintf("user%02d.lua", i))
+	}
+	for _, f := range useFiles {
+		text := files[f]
+		if f == "late.lua" {
+			text = late
+		}
+		pc.Steps = append(pc.Steps, openStep(f, text), proto.Step{M: "textDocument/definition", P: posParams(f, 1, strings.Index(strings.Split(text, "\n")[1], "gwide")+1)})
+	}
+	raw, _ := json.Marshal(map[string]interface{}{"fam": "wide-global", "files": n + 2})
+	locs := func(root string, sr *proto.StepResult) []string {
+		ls, _ := projLocs(root, sr.Reply)
+		var out []string
+		for _, l := range ls {
+			out = append(out, fmt.Sprintf("%s:%d:%d", l.File, l.SL, l.SC))
+		}
+		sort.Strings(out)
+		return out
+	}
+	p.RunSlice([][]*proto.Case{{pc}}, func(_ *proto.Case, res *proto.Result) {
+		c.Rep.Eval("wide-global")
+		if res.Crash != "" || res.Hang {
+			c.Rep.Violation(raw, fmt.Sprintf("a global used in %d files: server died or hung (crash=%q)", n+2, res.Crash))
+			return
+		}
+		var we struct {
+			Changes map[string][]rawEdit `json:"changes"`
+		}
+		json.Unmarshal(res.Steps[base-1].Reply, &we)
+		var ren []string
+		for uri, es := range we.Changes {
+			f := strings.TrimPrefix(strings.TrimPrefix(uri, "file://"), res.Root+"/")
+			for _, e := range es {
+				x := fmt.Sprintf("%s:%d:%d", f, e.Range.Start.Line, e.Range.Start.Character)
+				if e.Range.End.Character-e.Range.Start.Character != 5 || e.Range.End.Line != e.Range.Start.Line {
+					x += "(bad range)"
+				}
+				ren = append(ren, x)
+			}
+		}
+		sort.Strings(ren)
+		defs := map[string][]string{}
+		for i, f := range useFiles {
+			defs[f] = locs(res.Root, &res.Steps[base+2*i+1])
+		}
+		judge(want, locs(res.Root, &res.Steps[base-3]), locs(res.Root, &res.Steps[base-2]), ren, defs, raw)
+	})
+	c.Rep.Traces++
+}
+
+func init() {
+	registry["WIDE"] = func(c *Ctx) { // development entry: the wide-global scenario alone
+		p := c.NewPool(1)
+		wideGlobal(c, p, "WIDE", func(want, refs1, refs2, ren []string, defs map[string][]string, raw json.RawMessage) {
+			fmt.Printf("want=%d refs1=%d refs2=%d ren=%d defs=%v equal=%v/%v/%v\n", len(want), len(refs1), len(refs2), len(ren), defs,
+				strings.Join(want, " ") == strings.Join(refs1, " "), strings.Join(want, " ") == strings.Join(refs2, " "), strings.Join(want, " ") == strings.Join(ren, " "))
+		})
+	}
 }
